@@ -103,6 +103,14 @@ var c04Atoms = []c04Atom{
 	{Name: "multi-name-const", Suspect: true, Decls: []string{"const a#, b# uint64 = 1, 2", "func u#() uint64 {\n\treturn a# + b#\n}"}, Entry: "u#", Kinds: "const x multi-name spec"},
 	{Name: "multi-name-var", Suspect: true, Decls: []string{"var x#, y# uint64 = 3, 4", "func u#() uint64 {\n\treturn x# + y#\n}"}, Entry: "u#", Kinds: "var x multi-name spec"},
 	{Name: "function-named-like-method", Suspect: true, Decls: []string{"type T# struct {\n\tv uint64\n}", "func (t T#) m() uint64 {\n\treturn t.v\n}", "func T#__m(t T#) uint64 {\n\treturn 7\n}"}, Kinds: "func/method x name collision"},
+	{Name: "method-bare-name-equals-function", Decls: []string{"type T# struct {\n\tv uint64\n}", "func get#() uint64 {\n\treturn 4\n}", "func (t *T#) get#() uint64 {\n\treturn t.v\n}", "func u#() uint64 {\n\treturn get#() * 2\n}"}, Entry: "u#", Kinds: "func x call (a method has the same bare name)"},
+	{Name: "method-bare-name-equals-constant", Decls: []string{"type T# struct {\n\tv uint64\n}", "const lim# uint64 = 4", "func (t *T#) lim#() uint64 {\n\treturn t.v\n}", "func u#() uint64 {\n\treturn lim# * 2\n}"}, Entry: "u#", Kinds: "const x constant-in-expression (a method has the same bare name)"},
+	{Name: "method-bare-name-equals-global", Decls: []string{"type T# struct {\n\tv uint64\n}", "var cnt# uint64 = 4", "func (t *T#) cnt#() uint64 {\n\treturn t.v\n}", "func u#() uint64 {\n\treturn cnt# * 2\n}"}, Entry: "u#", Kinds: "var x global-in-expression (a method has the same bare name)"},
+	{Name: "method-bare-name-equals-type", Decls: []string{"type T# struct {\n\tv uint64\n}", "type Key# struct {\n\tk uint64\n}", "func (t *T#) Key#() uint64 {\n\treturn t.v\n}", "func u#() uint64 {\n\tk := Key#{k: 3}\n\treturn k.k\n}"}, Entry: "u#", Kinds: "struct x struct-literal (a method has the same bare name)"},
+	{Name: "two-methods-same-bare-name", Decls: []string{"type T# struct {\n\tv uint64\n}", "type V# struct {\n\tw uint64\n}", "func (t *T#) size#() uint64 {\n\treturn t.v\n}", "func (t *V#) size#() uint64 {\n\treturn t.w\n}", "func u#(a *T#, b *V#) uint64 {\n\treturn a.size#() + b.size#()\n}"}, Kinds: "method x method-call (two receivers share the bare name)"},
+	{Name: "grouped-constants-later-member-used", Decls: []string{"const (\n\tha# uint64 = 8\n\thb# uint64 = 64\n\thc# uint64 = 3\n)", "const lim# uint64 = hb# * 2", "func u#() uint64 {\n\treturn hc# + lim#\n}"}, Entry: "u#", Kinds: "const x constant-in-initialiser (later member of a group)"},
+	{Name: "grouped-globals-later-member-used", Decls: []string{"var (\n\tga# uint64 = 8\n\tgb# uint64 = 64\n)", "func u#() uint64 {\n\treturn gb# + 1\n}"}, Entry: "u#", Kinds: "var x global-in-expression (later member of a group)"},
+	{Name: "grouped-types-later-member-used", Decls: []string{"type (\n\tGa# struct {\n\t\ta uint64\n\t}\n\tGb# struct {\n\t\tb uint64\n\t}\n)", "func u#() uint64 {\n\tv := Gb#{b: 2}\n\treturn v.b\n}"}, Entry: "u#", Kinds: "struct x struct-literal (later member of a type group)"},
 	{Name: "constant-block-backward-reference", Suspect: true, Decls: []string{"const (\n\tk1# uint64 = k2# + 1\n\tk2# uint64 = 1\n)"}, Kinds: "const x constant-in-initialiser (later spec of the same block)"},
 }
 
